@@ -134,7 +134,23 @@ var numberPool = func() []string {
 		"1.0e+00", "1E-02", "10", "100", "1000000", "1e1", "0.5", "-0.5", "0.25", "3.141592653589793", "2.718281828459045e0",
 		"9223372036854775807.0", "9223372036854775808.0", "18446744073709551615.0", "1e19", "1e20", "12345678901234567890", "0.1e1", "0.00", "-0e0",
 	}
+	// payload words whose top byte is one of the tape's tag bytes (a reader that recognises entries by their top
+	// byte alone would take such a number's value word for a tag): as int64 values and as float64 bit patterns
+	for _, w := range tagLookalikeWords {
+		p = append(p, strconv.FormatInt(int64(w), 10), strconv.FormatFloat(math.Float64frombits(w), 'g', -1, 64))
+	}
+	// exponents with leading zeros (any number of them is allowed by the grammar)
+	p = append(p, "1e-0001", "25E-0002", "5e-0324", "1e+0001", "7E00000000000000000000012", "1e-000000000000000000000", "2.5e0010", "1e-0400", "1E+00308")
 	return p
+}()
+
+// tagLookalikeWords: 64-bit payloads with a tag byte on top; all are positive int64 values and finite floats.
+var tagLookalikeWords = func() []uint64 {
+	var ws []uint64
+	for _, tag := range []byte("r{}[]\"ludtfnN") {
+		ws = append(ws, uint64(tag)<<56|1, uint64(tag)<<56|0x000fedcba9876543, uint64(tag)<<56)
+	}
+	return ws
 }()
 
 // halfwayLiteral returns a decimal literal exactly halfway between two adjacent doubles, optionally perturbed in the
